@@ -41,4 +41,9 @@ dict(id='c04-nicv-total-variance-unsquared-mean', prop='C04', expect='C04-D8', f
  dict(id='c04-snr-noise-mean-unsquared', prop='C04', expect='C04-D8', file=P, old="        denominator = (sums_squared / non_zero_counters) - (sums / non_zero_counters)**2\n", new="        denominator = (sums_squared / non_zero_counters) - (sums / non_zero_counters)\n"),
  dict(id='c04-kernel-square-sum-unsquared', prop='C04', expect='C04-D8', file=P, old="                        self_sum_square[sample_idx, data_idx, data_value] += xx\n", new="                        self_sum_square[sample_idx, data_idx, data_value] += x\n"),
  dict(id='c04-silent-nicv-algebraic-rewrite', prop='C04', kind='silent', file=P, old="        denominator = _np.sum(sums_squared, axis=1) / number_non_zero - (mean)**2\n", new="        denominator = (_np.sum(sums_squared, axis=1) - number_non_zero * mean * mean) / number_non_zero\n"),
+ dict(id='c04-anova-dof-n-minus-1', prop='C04', expect='C04-D10', file='scared/distinguishers/partitioned.py', old="        ) / (number_non_zero - total_non_empty_partitions)\n", new="        ) / (number_non_zero - 1)\n"),
+ dict(id='c04-nicv-unweighted-class-means', prop='C04', expect='C04-D10', file='scared/distinguishers/partitioned.py', old="        numerator *= non_zero_counters / number_non_zero\n", new="        numerator /= non_zero_indices.shape[0]\n"),
+ dict(id='c04-silent-snr-hoisted-means', prop='C04', kind='silent', file='scared/distinguishers/partitioned.py', old="        denominator = (sums_squared / non_zero_counters) - (sums / non_zero_counters)**2\n", new="        class_means = sums / non_zero_counters\n        denominator = (sums_squared / non_zero_counters) - class_means * class_means\n"),
+ dict(id='c04-counter-pinned-to-sample-one', prop='C04', expect='C04-D11', file='scared/distinguishers/partitioned.py', old="                        if sample_idx == 0:\n", new="                        if sample_idx == 1:\n"),
+ dict(id='c04-kernel2-complement-mask', prop='C04', expect='C04-D11', file='scared/distinguishers/partitioned.py', old="            tmp_bool = data == p  #", new="            tmp_bool = data != p  #"),
 ]
